@@ -223,6 +223,23 @@ pub fn case_binary(va: &dyn VariantApi, b: &[u8], st: &CaseStats) -> Result<(), 
             return Err(format!("{}: store(try_from({})) via {} = {}", v.name, hex(b), what, hex(&out)));
         }
     }
+    // storing into a LARGER buffer gives the same N bytes at the front (and converts back)
+    for extra in [1usize, 7, 64] {
+        let mut big = vec![0xC3u8; n + extra];
+        st.eval();
+        match ha.store_bytes(&mut big) {
+            Ok(k) if k == n => {
+                if big[..n] != *b {
+                    return Err(format!("{}: store_into_bytes into a buffer of {} bytes wrote {} instead of {} in its first {} bytes", v.name, n + extra, hex(&big[..n]), hex(b), n));
+                }
+                match va.try_from_slice(&big[..n]) {
+                    Ok(h2) if h2.equals(ha.as_ref()) => {}
+                    other => return Err(format!("{}: try_from(first N bytes stored into a larger buffer) gave {:?}", v.name, other.map(|x| x.display()))),
+                }
+            }
+            other => return Err(format!("{}: store_into_bytes into a buffer of {} bytes returned {:?}", v.name, n + extra, other)),
+        }
+    }
     // try_from(store(h)) == h
     let again = va.try_from_slice(&store_vec(ha.as_ref(), n)?).map_err(|e| format!("re-conversion failed {:?}", e))?;
     if !again.equals(ha.as_ref()) {
